@@ -217,6 +217,13 @@ class Gen:
                 ln = 0
             tot += ln
             ops.append(f"aadd {aid} {n} {ln}")
+        if r.random() < 0.3 and nv >= 2:
+            # an address that is still being laid out (no collection bound to it yet): slices are read, an earlier name is resized,
+            # the slices are read again
+            ops += [f"aget {aid} {n}" for n in names[1:]]
+            ops.append(f"aupd {aid} {names[int(r.integers(0, nv - 1))]} {int(r.integers(1, 6))}")
+            ops += [f"aget {aid} {n}" for n in names]
+            return ops
         ops.append(f"vnew {aid} " + fl(self.vals(tot)))
         return ops
 
@@ -554,6 +561,9 @@ def run_all(seed, nseq, maxops, mal_frac, corpus):
 
 
 CORPUS = [
+    ("corpus:get-update-get", ["anew", "aadd 0 u 1", "aadd 0 y 1", "aadd 0 w 2", "aget 0 y", "aget 0 w", "aupd 0 u 2", "aget 0 y", "aget 0 w",
+                               "aupd 0 y 3", "aget 0 w", "aget 0 u", "ainq 0 3", "vnew 0 " + fl([1, 2, 3, 4, 5, 6, 7]), "vget 0 w", "vget 0 y",
+                               "vset 0 w " + fl([9, 8]), "vget 0 y"]),
     ("corpus:alias-then-update", ["anew", "aadd 0 x 2", "aadd 0 y 3", "aalias 0 0", "aupd 0 x 4", "aget 1 y0", "aget 0 y"]),
     ("corpus:tset-minus-one", ["anew", "aadd 0 x 2", "vnew 0 " + fl([1, 2]), "tnew 0 3", "vop 0 mul l s " + f2h(2.0),
                                "tset 0 -1 1", "tset 0 -2 1", "tset 0 3 1"]),
